@@ -178,6 +178,20 @@ class Models:
         if name in ('omp_get_max_threads', 'omp_get_num_threads'): return z3.IntVal(1)
         if name == 'now':
             return Opaque('time_point')
+        if name in ('sort', 'stable_sort') and len(args) >= 2:
+            b = A(0); en = A(1)
+            if len(args) > 2: e.rv(args[2], st, fr)
+            if isinstance(b, Iter) and b.cty.kind == 'vector':
+                # the range is permuted: its contents become unknown (no property under contract needs more than that)
+                ety = b.cty.args[0]
+                if e.is_value_type(ety):
+                    keys = [e.vec_data_key(ety)] if ety.is_scalar() else [e.vec_data_key(ety, p) for p, lt in e.leaves(ety)]
+                    for key in keys:
+                        arr = e.harr(st, key, None)
+                        st.heap[key] = z3.Store(arr, b.vref, e.fresh(key + '!sorted', arr.sort().range()))
+                    self.used('std::sort / std::stable_sort: the range is some permutation of itself (modelled as unknown contents)')
+                    return None
+            raise Unsupported('std::%s form at %s' % (name, e.where(n, fr)))
         if name in ('stod', 'stof', 'stold'):
             return self.str_throwing_conv(st, 'stod', e.raw(A(0)), n, fr, R)
         if name in ('stoi', 'stol', 'stoul', 'stoull', 'stoll'):
@@ -345,7 +359,28 @@ class Models:
         raise Unsupported('aggregate initialisation of %r' % (t,))
 
     def base_init(self, st, this, c, expr, fr):
-        raise Unsupported('base-class initialiser')
+        """base-class sub-object initialisation: run the base constructor on the same object"""
+        e = self.e
+        if not isinstance(this, ObjLV): raise Unsupported('base-class initialiser of a value class')
+        bt = TY.of_node(expr)
+        if bt.kind != 'record': raise Unsupported('base initialiser of type %r' % (bt,))
+        if bt.name.startswith('std::'): return
+        base_obj = ObjLV(this.ref, bt)
+        args = [a for a in expr.get('inner', [])] if expr.get('kind') in ('CXXConstructExpr',) else []
+        ctor_t = expr.get('ctorType', {}).get('qualType', 'void ()')
+        ctor = self.find_ctor(bt, ctor_t)
+        # default member initialisers of the base's own fields
+        for (fn, ft, dc, fd) in e.layout(bt.name):
+            if dc != bt.name: continue
+            init = [x for x in fd.get('inner', []) if 'kind' in x and x['kind'] != 'FullComment']
+            if init:
+                flv = e.member_lv(st, base_obj, fn, dc)
+                if isinstance(flv, ObjLV): e.init_object_from(st, flv, e.ev(init[0], st, fr), init[0], fr)
+                else: e.store(st, flv, e.rv(init[0], st, fr))
+        if ctor is not None and e.ast.body_of(ctor) is not None:
+            env2 = {}
+            e.bind_args(e.ast.params_of(ctor), args, st, fr, env2)
+            e.run_inlined(ctor, bt.name + '::' + bt.name, base_obj, env2, st, fr, expr)
 
     # ------------------------------------------------------------------ containers
     def init_empty_container(self, st, obj):
